@@ -1,4 +1,5 @@
 import FmtModel.Members
+import FmtModel.Lemmas.MergeKeys
 /-
   C03 — a formatter group behaves as the product of its members.
 
@@ -11,6 +12,8 @@ import FmtModel.Members
   `C03_repeats`     : repeated occurrences that agree are merged, occurrences that disagree are rejected;
   `C03_repeats_inner`: the same when a directive is repeated inside a repeated occurrence (captures of different
                       occurrences are kept apart);
+  `C03_tag_keeps_field`, `C03_tags_apart`, `C03_single_occurrence` (general, by induction): tagging a capture key
+                      with its occurrence never changes the field it maps back to and never merges two keys;
   `C03_format`      : formatting is the members' renderings joined by the literal text, and parsing what was printed
                       gives the same group back;
   `C03_literal`     : escaped literal text with regex metacharacters around the placeholders matches itself;
@@ -82,6 +85,23 @@ theorem C03_repeats_inner :
   ∧ gparse dA "7#7 7#7 8 7" "{date:%n}#{date:%n %n}#{date:%n %n %n}" = .error .fmtValue
   ∧ gparse dA "7#7 8#7 7 7" "{date:%n}#{date:%n %n}#{date:%n %n %n}" = .error .fmtValue := by
   refine ⟨?_, ?_, ?_, ?_, ?_, ?_, ?_, ?_⟩ <;> decide +kernel
+
+/-- (general) the field a capture maps back to (`key.split("__", 1)[0]`) does not depend on the occurrence the key is
+    tagged with: for every key that does not end in an underscore and every occurrence name -/
+theorem C03_tag_keeps_field (k g : Str) (h : k.getLast? ≠ some '_') :
+    splitFirst (k ++ ['_', '_'] ++ g) ['_', '_'] = splitFirst k ['_', '_'] := splitFirst_append_tag k g h
+
+/-- (general) tagged keys stay apart: inside one occurrence, and between occurrences whose names are equally long -/
+theorem C03_tags_apart (k1 k2 g1 g2 : Str) (hl : g1.length = g2.length)
+    (h : k1 ++ ['_', '_'] ++ g1 = k2 ++ ['_', '_'] ++ g2) : k1 = k2 ∧ g1 = g2 := tag_inj k1 k2 g1 g2 hl h
+
+/-- (general) one occurrence: the member's merged mapping is that occurrence's captures, every key tagged with it -/
+theorem C03_single_occurrence (g : Str) (caps : List (Str × Option Str)) :
+    mergeOccurrences [(g, caps)] =
+      [(splitFirst g ['_', '_'], caps.foldl (fun a kv => ainsert (kv.1 ++ ['_', '_'] ++ g) kv.2 a) [])] := by
+  simp [mergeOccurrences, Gen.group_merge_apart, alookup, ainsert]
+
+example : ("day_pad__1".toList : Str).getLast? ≠ some '_' := by decide   -- the hypothesis is met by real capture names
 
 theorem C03_format :
     gfmt dA "12/data_engineer/1.2.3" "{date:%n}/{datetime:%s}/{date_time:%m.%n.%c}" "{datetime:%c}-{date:%p}+{date_time:%f}" = "dataEngineer-012+1_2_3"
